@@ -134,7 +134,25 @@ pub fn real_tcl(d: &dyn Dialect, tc: bool, limit: usize, toks: &[Token]) -> Stri
                 }
             }
             match guard(|| stmts.iter().map(|s| s.to_string()).collect::<Vec<_>>().join("; ")) {
-                G::Val(t) => format!("OK {} TEXT {}", sexps.join(";"), hex(&t)),
+                G::Val(t) => {
+                    // developer aid: `VERIF_TCL_REPARSE=<path>` appends every accepted input whose printed text is
+                    // rejected or re-parses to different statements (candidates for C01 findings)
+                    if let Ok(p) = std::env::var("VERIF_TCL_REPARSE") {
+                        let again = guard(|| Parser::new(d).with_options(ParserOptions::new().with_trailing_commas(tc)).with_recursion_limit(limit.max(50)).try_with_sql(&t).and_then(|mut p| p.parse_statements()));
+                        let note = match again {
+                            G::Val(Ok(v)) if v == stmts => None,
+                            G::Val(Ok(_)) => Some("DIFFERENT"),
+                            G::Val(Err(_)) => Some("REJECTED"),
+                            G::Panic(_) => Some("PANIC"),
+                        };
+                        if let Some(n) = note {
+                            if let Ok(mut f) = std::fs::OpenOptions::new().create(true).append(true).open(p) {
+                                let _ = writeln!(f, "{n}\t{}\t{}\t{t}", toks.iter().map(|t| t.to_string()).collect::<Vec<_>>().join(" "), sexps.join(";"));
+                            }
+                        }
+                    }
+                    format!("OK {} TEXT {}", sexps.join(";"), hex(&t))
+                }
                 G::Panic(m) => format!("PANIC display {m}"),
             }
         }
@@ -263,7 +281,7 @@ const PROBES: &[&str] = &[
     "SET", "SET;", "SET a", "SET a =", "SET a = 1", "SET a TO 1", "SET a to 1", "SET a == 1", "SET a := 1", "SET a 1", "SET a = 1, 2", "SET a = 1,", "SET a = 1, ;", "SET a = 1,, 2", "SET a = , 1", "SET a = 1 2", "SET a = 1, b = 2", "SET a = 1, from",
     "SET a = 1, )", "SET a.b = 1", "SET a.b.c TO 'x', 'y'", "SET \"A\" = 1", "SET 'a' = 1", "SET `a.b` = 1", "SET 1 = 1", "SET a. = 1", "SET = 1", "SET TO 1", "SET to = 1", "SET a = b = c", "SET a = DEFAULT", "SET a = ON", "SET a = (1)", "SET a = (1, 2)",
     "SET a = (SELECT 1)", "SET a = SELECT 1", "SET a = WITH x AS (SELECT 1) SELECT 2", "SET a = 1, SELECT 2", "SET a = f(1)", "SET a = 'x' 'y'", "SET a = ;", "SET a TO", "SET a = 1; SET b = 2", "SET a = 1 SET b = 2", "SET a = 1 END", "set a = 1",
-    "SET SESSION a = 1", "SET LOCAL a = 1", "SET LOCAL a TO 1, 2", "SET SESSION", "SET LOCAL", "SET SESSION LOCAL a = 1", "SET LOCAL SESSION a = 1", "SET session = 1", "SET local TO 1", "SET GLOBAL a = 1", "SET SESSION SESSION = 1",
+    "SET SESSION a = 1", "SET LOCAL a = 1", "SET LOCAL a TO 1, 2", "SET SESSION", "SET LOCAL", "SET SESSION LOCAL a = 1", "SET LOCAL SESSION a = 1", "SET session = 1", "SET local TO 1", "SET GLOBAL a = 1", "SET SESSION SESSION = 1", "SET SESSION LOCAL = 1", "SET SESSION HIVEVAR = 1", "SET SESSION local.x TO 'a'", "SET LOCAL LOCAL = 1", "SET LOCAL = 1", "SET LOCAL session = 1",
     "SET HIVEVAR:a = 1", "SET HIVEVAR: a = 1", "SET HIVEVAR a = 1", "SET HIVEVAR", "SET HIVEVAR:", "SET HIVEVAR:a", "SET HIVEVAR:a.b = 'x'", "SET HIVEVAR::a = 1", "SET HIVEVAR:ROLE x", "SET HIVEVAR:ROLE = x", "SET HIVEVAR:TIME ZONE 'x'",
     "SET HIVEVAR:NAMES utf8", "SET HIVEVAR:TRANSACTION READ ONLY", "SET HIVEVAR:CHARACTERISTICS AS TRANSACTION READ ONLY", "SET HIVEVAR:(a, b) = (1, 2)", "SET hivevar:a = 1", "SET HIVEVAR = 1",
     "SET ROLE", "SET ROLE x", "SET ROLE NONE", "SET ROLE none", "SET ROLE \"NONE\"", "SET ROLE 'x'", "SET ROLE 1", "SET ROLE x y", "SET ROLE a.b", "SET ROLE = x", "SET ROLE TO x", "SET ROLE ROLE", "SET ROLE role", "SET SESSION ROLE x", "SET LOCAL ROLE x",
